@@ -105,12 +105,20 @@ inductive StartupEv where
   | finish (err : Option String)
 deriving Repr
 
+/-- `Finish(err)`, first atomic store: `s.failErrMsg.Store(&msg)` -/
+def Startup.finishMsg (u : Startup) (m : String) : Startup := { u with failMsg := some m }
+/-- `Finish`, last atomic store: `s.done.Store(true)` -/
+def Startup.finishDone (u : Startup) : Startup := { u with done := true }
+
+/-- `Finish(err)` is two atomic stores, in the order the code has them: the failure
+    message first, then `done` — so a ReadyChecker that observes `done` also observes
+    the failure (Props.C33.C33_finish_err_never_passes). -/
 def Startup.apply (u : Startup) : StartupEv → Startup
   | .addShard => { u with total := u.total + 1 }
   | .completedShard => { u with completed := u.completed + 1 }
   | .shardFailed id m => { u with errs := u.errs ++ [(id, m)] }
-  | .finish none => { u with done := true }
-  | .finish (some m) => { u with failMsg := some m, done := true }
+  | .finish none => u.finishDone
+  | .finish (some m) => (u.finishMsg m).finishDone
 
 open Influx.Generated.CheckConsts in
 /-- StartupProgressLogger.checkReady, stamped with the logger's name (the shard
@@ -169,6 +177,7 @@ inductive Op where
   | setHealth (i : Nat) (s : Status) (m : String)       -- health check i: new fixed answer / FreshnessResponse.Update
   | regStartup (name : String)                          -- a StartupProgressLogger: ReadyChecker on /ready, HealthChecker on /health
   | startupEv (k : Nat) (ev : StartupEv)                -- AddShard / CompletedShard / ShardLoadFailed / Finish on logger k
+  | finishRace (k : Nat) (m : String) (n : Nat)         -- Finish(err) on logger k with n GET /ready while err.Error() is being rendered, then one after
   | ready | health | names                              -- GET /ready, GET /health, ReadyCheckNames()
 deriving Repr
 
@@ -176,6 +185,16 @@ def updAt (l : List Cell) (i : Nat) (f : Cell → Option Cell) : Option (List Ce
   match l[i]? with
   | none => none
   | some c => (f c).map fun c' => l.set i c'
+
+/-- an event on startup logger `k`: its two checkers answer from the new state -/
+def St.startupApply (s : St) (k : Nat) (ev : StartupEv) : Option St :=
+  match s.startups[k]? with
+  | none => none
+  | some u =>
+    let u' := u.apply ev
+    some { s with startups := s.startups.set k u',
+                  ready := s.ready.set u.readyIdx ⟨.startup, u'.readyRes⟩,
+                  health := s.health.set u.healthIdx ⟨.startup, u'.healthRes⟩ }
 
 /-- the effect of an op on the registered checkers (`none`: the op does not apply,
     e.g. Ready() on something that is not a gate — the harness answers `bad-op`) -/
@@ -191,14 +210,8 @@ def St.apply (s : St) : Op → Option St
   | .regStartup n =>
     let u : Startup := { name := n, readyIdx := s.ready.length, healthIdx := s.health.length }
     some { ((s.addReady ⟨.startup, u.readyRes⟩).addHealth ⟨.startup, u.healthRes⟩) with startups := s.startups ++ [u] }
-  | .startupEv k ev =>
-    match s.startups[k]? with
-    | none => none
-    | some u =>
-      let u' := u.apply ev
-      some { s with startups := s.startups.set k u',
-                    ready := s.ready.set u.readyIdx ⟨.startup, u'.readyRes⟩,
-                    health := s.health.set u.healthIdx ⟨.startup, u'.healthRes⟩ }
+  | .startupEv k ev => s.startupApply k ev
+  | .finishRace k m _ => s.startupApply k (.finish (some m))
   | .ready | .health | .names => some s
 
 /-- Responses.Less: failing before passing (string order of the status), then by name -/
